@@ -100,3 +100,62 @@ func VerifHarness_C05_OperatorLaws() {
 	}
 	verifrt.Reach("end")
 }
+
+// C05: two FHIR elements are compared by the values they denote, not by their protos: decimals of different scale,
+// one instant written in two zones, quantities that differ in display unit or scale only. Values are drawn so that the
+// expected verdict is known: numbers by exact value, instants by UTC instant, quantities by value within one code.
+func VerifHarness_C05_ElementPairs() {
+	var a, b any
+	want := 2 // 0 false, 1 true, 2 empty
+	switch verifrt.Choose("kind", 3) {
+	case 0: // decimal elements: value v written with 1 or 2 decimal places
+		va, vb := verifrt.NondetIntRange("va", -2, 2), verifrt.NondetIntRange("vb", -2, 2)
+		texts := func(v int, two bool) string {
+			s := []string{"-2", "-1", "0", "1", "2"}[v+2]
+			if two {
+				return s + ".00"
+			}
+			return s + ".0"
+		}
+		a = &dtpb.Decimal{Value: texts(va, verifrt.NondetBool("a.two"))}
+		b = &dtpb.Decimal{Value: texts(vb, verifrt.NondetBool("b.two"))}
+		want = b2i(va == vb)
+	case 1: // dateTime elements of second precision: the same or another instant, in UTC or at +02:00
+		sa := int64(verifrt.NondetIntRange("sa", 1704067200, 1704067203))
+		sb := int64(verifrt.NondetIntRange("sb", 1704067200, 1704067203))
+		zone := func(two bool) string {
+			if two {
+				return "+02:00"
+			}
+			return "Z"
+		}
+		a = &dtpb.DateTime{ValueUs: sa * 1000000, Timezone: zone(verifrt.NondetBool("a.plus2")), Precision: dtpb.DateTime_SECOND}
+		b = &dtpb.DateTime{ValueUs: sb * 1000000, Timezone: zone(verifrt.NondetBool("b.plus2")), Precision: dtpb.DateTime_SECOND}
+		want = b2i(sa == sb)
+	default: // Quantity elements: value, code and a display unit that does not take part
+		va, vb := verifrt.NondetIntRange("qa", 1, 2), verifrt.NondetIntRange("qb", 1, 2)
+		code := func(kg bool) string {
+			if kg {
+				return "kg"
+			}
+			return "mg"
+		}
+		ca, cb := code(verifrt.NondetBool("a.kg")), code(verifrt.NondetBool("b.kg"))
+		a = &dtpb.Quantity{Value: &dtpb.Decimal{Value: []string{"1.0", "2.0"}[va-1]}, Code: &dtpb.Code{Value: ca}, Unit: &dtpb.String{Value: "display a"}}
+		b = &dtpb.Quantity{Value: &dtpb.Decimal{Value: []string{"1.00", "2.00"}[vb-1]}, Code: &dtpb.Code{Value: cb}, Unit: &dtpb.String{Value: "display b"}}
+		if ca == cb {
+			want = b2i(va == vb)
+		}
+	}
+	ea, eb := &verifFixed{system.Collection{a}}, &verifFixed{system.Collection{b}}
+	eq := verifTri(&EqualityExpression{Left: ea, Right: eb})
+	eqR := verifTri(&EqualityExpression{Left: eb, Right: ea})
+	ne := verifTri(&EqualityExpression{Left: ea, Right: eb, Not: true})
+	verifrt.Assert(eq == want && eqR == want, "elements-compare-by-the-values-they-denote")
+	if want == 2 {
+		verifrt.Assert(ne == 2, "not-equal-is-empty-when-equal-is")
+	} else {
+		verifrt.Assert(ne == 1-want, "not-equal-is-the-negation-of-equal")
+	}
+	verifrt.Reach("end")
+}
